@@ -307,12 +307,27 @@ fn work_dir() -> PathBuf {
     d
 }
 
+/// Path of the worker executable: the checked-optimised build this process runs from, or (thorough
+/// tier, every second worker) the plain release build, in which arithmetic wraps instead of panicking.
+fn worker_exe(plain: bool) -> PathBuf {
+    let exe = std::env::current_exe().expect("harness: current_exe");
+    if plain {
+        if let Some(target) = exe.parent().and_then(|p| p.parent()) {
+            let p = target.join("plain").join("gverif");
+            if p.exists() {
+                return p;
+            }
+        }
+    }
+    exe
+}
+
 impl Fe {
-    fn spawn() -> Fe {
+    fn spawn(plain: bool) -> Fe {
         let n = SPAWN_COUNTER.fetch_add(1, std::sync::atomic::Ordering::SeqCst);
         let stderr_path = work_dir().join(format!("stderr-{n}.txt"));
         let errf = std::fs::File::create(&stderr_path).expect("harness: cannot create stderr file");
-        let exe = std::env::current_exe().expect("harness: current_exe");
+        let exe = worker_exe(plain);
         // address-space limit of 2 GiB: an input that makes the front end allocate without bound
         // ends in an allocation failure (abort) instead of taking the machine down
         let mut child = Command::new("sh")
@@ -406,11 +421,16 @@ struct Manager {
     fe: Fe,
     deadline: Duration,
     respawns: u64,
+    plain: bool,
 }
 
 impl Manager {
     fn new(deadline_s: u64) -> Self {
-        Manager { fe: Fe::spawn(), deadline: Duration::from_secs(deadline_s), respawns: 0 }
+        Manager::with_profile(deadline_s, false)
+    }
+
+    fn with_profile(deadline_s: u64, plain: bool) -> Self {
+        Manager { fe: Fe::spawn(plain), deadline: Duration::from_secs(deadline_s), respawns: 0, plain }
     }
 
     /// Run all inputs, in order; returns (micros, outcome) per input.
@@ -467,7 +487,7 @@ impl Manager {
                 }
             }
             if restart {
-                self.fe = Fe::spawn();
+                self.fe = Fe::spawn(self.plain);
                 self.respawns += 1;
             }
             // inputs of the batch that were not answered are sent again in the next batch
@@ -606,6 +626,7 @@ struct St {
     exhaustive_classes: BTreeMap<&'static str, bool>,
     respawns: u64,
     front_us_total: u64,
+    by_profile: Counts,
 }
 
 impl St {
@@ -724,6 +745,7 @@ impl St {
         }
         self.respawns += o.respawns;
         self.front_us_total += o.front_us_total;
+        self.by_profile.merge(&o.by_profile);
     }
 }
 
@@ -1040,7 +1062,11 @@ pub fn run(ctx: &Ctx) -> i32 {
     // ---- main phases
     let results: Vec<St> = par(WORKERS, |w| {
         let mut rng = Rng::derive(ctx.seed, 0x0700 + w as u64);
-        let mut f = Feeder { mgr: Manager::new(deadline_s), st: St::default(), buf: vec![], ctx };
+        // thorough tier: every second worker runs the plain release build (no overflow checks, no
+        // debug assertions) if it was built; release vs. checked builds flip verdicts
+        let plain = thorough && w % 2 == 1 && worker_exe(true) != worker_exe(false);
+        let mut f = Feeder { mgr: Manager::with_profile(deadline_s, plain), st: St::default(), buf: vec![], ctx };
+        f.st.by_profile.add(if plain { "plain release worker" } else { "checked-optimised worker" }, 1);
         let mut k: usize = 0; // global position counter for partitioning
         let mine = |k: &mut usize| {
             *k += 1;
@@ -1345,7 +1371,7 @@ pub fn run(ctx: &Ctx) -> i32 {
                 f.st.inconclusive.inc("hang candidate not re-run alone (more than 3 in this worker)");
                 continue;
             }
-            let mut m = Manager::new(60);
+            let mut m = Manager::with_profile(60, plain);
             let r = m.run(std::slice::from_ref(&c));
             match &r[0].1 {
                 Out::Timeout(stage) => {
@@ -1414,6 +1440,7 @@ pub fn run(ctx: &Ctx) -> i32 {
     cov.insert("slowest_front_end_input".into(), total.slowest.clone().unwrap_or(Value::Null));
     cov.insert("front_end_cpu_s".into(), json!((total.front_us_total as f64 / 1e6 * 100.0).round() / 100.0));
     cov.insert("worker_restarts".into(), json!(total.respawns));
+    cov.insert("workers_by_build_profile".into(), total.by_profile.to_json());
     cov.insert("not_judged".into(), total.inconclusive.to_json());
     cov.insert("failure_signatures".into(), json!(finding_list));
     cov.insert("samples".into(), json!(total.samples.values().cloned().collect::<Vec<Value>>()));
